@@ -3,7 +3,7 @@
    _gen_graph / set_value, _CycleCell and _IterativeEvalTracker; tied to the source
    by the differential run of harness/props/c06.py). *)
 From Coq Require Import ZArith QArith Qabs List.
-From PV Require Import Lib.Py Model.Iter Proofs.C06 Proofs.C06Lin Proofs.C06Struct Proofs.C06Cone Proofs.C06Conv.
+From PV Require Import Lib.Py Model.Iter Proofs.C06 Proofs.C06Lin Proofs.C06Struct Proofs.C06Cone Proofs.C06Conv Proofs.C06Ready.
 Import ListNotations.
 
 (* any workbook, cyclic or not, any state: between 1 and [iterations] passes *)
@@ -205,3 +205,38 @@ Theorem C06_acyclic_total : forall w sv rank,
     quiet w sv t st' /\ cone_built w t st' /\ length (cells st') = length (cells st).
 Proof. exact acyclic_total. Qed.
 Print Assumptions C06_acyclic_total.
+
+(* ---- cone_ready is what histories produce (Proofs/C06Ready.v) ---- *)
+
+(* calm: no cell on the stack; consts_ok w xs: every constant cell carries xs — a
+   built one by its value, an unbuilt one by what the file stored.  They hold in
+   the initial state, are kept by EVERY returning evaluate (any workbook: cyclic,
+   with ranges; built target or first use, graph construction included) and by
+   writes to constants (for the valuation with the new constant); together with
+   a built target they are cone_ready.  So C06_decay / C06_exhausted /
+   C06_converged apply to every evaluate of an already built target in every
+   history of evaluates and constant writes from the initial state. *)
+Theorem C06_ready_init : forall w xs,
+  (forall c, is_formula w c = false -> (num (stored (spec w c)) == xs c)%Q) ->
+  calm (init_state w) /\ consts_ok w xs (init_state w).
+Proof. exact ready_init. Qed.
+Print Assumptions C06_ready_init.
+
+Theorem C06_ready_evaluate : forall w xs t it tolv st v st',
+  calm st -> consts_ok w xs st -> evaluate_iterative w t it tolv st = Ok (v, st') ->
+  calm st' /\ consts_ok w xs st' /\ built (getc st' t) = true.
+Proof. exact ready_evaluate. Qed.
+Print Assumptions C06_ready_evaluate.
+
+Theorem C06_ready_write : forall w xs xs' c v st st',
+  calm st -> consts_ok w xs st -> is_formula w c = false -> set_value c v st = Ok st' ->
+  (xs' c == num v)%Q ->
+  (forall c', c' <> c -> is_formula w c' = false -> (xs' c' == xs c')%Q) ->
+  calm st' /\ consts_ok w xs' st'.
+Proof. exact ready_write. Qed.
+Print Assumptions C06_ready_write.
+
+Theorem C06_ready_cone : forall w xs t st,
+  calm st -> consts_ok w xs st -> built (getc st t) = true -> cone_ready w xs t st.
+Proof. exact ready_cone. Qed.
+Print Assumptions C06_ready_cone.
